@@ -1187,8 +1187,10 @@ void Parser::maybeAmbiguateCastExpression(ExpressionSyntax*& expr)
                   return, "");
 
     auto castExpr = expr->asCastExpression();
-    auto prefixExpr = castExpr->expr_->asPrefixUnaryExpression();
-    if (!(prefixExpr->asPrefixUnaryExpression()
+    auto prefixExpr = castExpr->expr_
+            ? castExpr->expr_->asPrefixUnaryExpression()
+            : nullptr;
+    if (!(prefixExpr
             && (prefixExpr->kind() == SyntaxKind::AddressOfExpression
                     || prefixExpr->kind() == SyntaxKind::PointerIndirectionExpression
                     || prefixExpr->kind() == SyntaxKind::UnaryPlusExpression
